@@ -240,19 +240,9 @@ BODYSETS = {
     "internal": [
     ],
     "adapters": [
-        # memory_adapter.rs entirely, the line handlers of file_adapter.rs / string_adapter.rs and StringAdapter's two loaders are
-        # TRANSLATED (tools/rs2coq_adapters.py, PinChecks/PcAdaptersGen.v), not hash-pinned; what stays pinned is the file I/O,
-        # the text rendering of save / clear and the incremental stubs
-        ("file_%s" % n, FA, fnre(n, a)) for n, a in [
-            ("load_policy_file", True), ("load_filtered_policy_file", True), ("save_policy_file", True),
-            ("load_policy", True), ("load_filtered_policy", True), ("save_policy", True), ("clear_policy", True),
-            ("add_policy", True), ("add_policies", True), ("remove_policy", True), ("remove_policies", True),
-            ("remove_filtered_policy", True)]
-    ] + [
-        ("str_%s" % n, SA, fnre(n, a)) for n, a in [
-            ("save_policy", True), ("clear_policy", True),
-            ("add_policy", True), ("add_policies", True), ("remove_policy", True), ("remove_policies", True),
-            ("remove_filtered_policy", True)]
+        # nothing of the three bundled adapters is hash-pinned any more: part 9 (tools/rs2coq_adapters.py: memory adapter, line
+        # handlers, string loaders) and part 17 (tools/rs2coq_fsave.py: the file protocol of save / clear, file reading, the text
+        # rendering, the incremental stubs, is_filtered) translate them
     ],
     "util": [
         # config.rs (parse_buffer, add_config, get, get_str, from_str) is TRANSLATED (tools/rs2coq_ini.py, PinChecks/PcIniGen.v)
@@ -260,9 +250,8 @@ BODYSETS = {
         # semantics of Gen/Regex.v (tools/rs2coq_regex.py, PinChecks/PcRegexGen.v), not hash-pinned
     ],
     "fmap": [
-        (n, "src/model/function_map.rs", r"pub\s+" + fnre(n)) for n in
-        [  # key_match / key_get are TRANSLATED (tools/rs2coq.py, PcStrFnGen.v), not hash-pinned
-         "key_match2", "key_get2", "key_match3", "key_get3", "key_match4", "key_match5", "regex_match"]
+        # key_match / key_get: part 2 (PcStrFnGen.v); regex_match, key_match2..5, key_get2/3 with their run-time Regex::new: part 16
+        # (tools/rs2coq_fmap.py, Gen/RegexSyntax.v, PinChecks/PcFmapGen.v)
     ],
 }
 
